@@ -360,6 +360,42 @@ let handle (line : String.t) : String.t =
       | BoPanic -> "panic" in
     if n_of_string cap = N0 then "err Protocol"
     else String.concat " " ("ok" :: List.map show (run_bc_n (n_of_string cap) (List.map parse ops)))
+  | "bwx" :: ops ->
+    (* the word-level bitfield model (FixedWords.v: src/bitfield/fixed.rs and dynamic.rs) on one operation script; the answer has
+       the format of the harness' probe (src/bitfield/verif_probe.rs), a script ends after the first panic *)
+    let b01 s = s <> "0" in
+    let parse o = match String.split_on_char ':' o with
+      | ["fnew"] -> FNew
+      | ["ffrom"; di; hx] -> FFrom (n_of_string di, bytes_of_hex hx)
+      | ["fbytes"] -> FBytes
+      | ["fget"; i] -> FGet (n_of_string i)
+      | ["fset"; i; v] -> FSet (n_of_string i, b01 v)
+      | ["frange"; s; l; v] -> FRange (n_of_string s, n_of_string l, b01 v)
+      | ["findex"; v; p] -> FIndex (b01 v, n_of_string p)
+      | ["flast"; v; p] -> FLast (b01 v, n_of_string p)
+      | ["dopen"; len; hx] -> DOpen (n_of_string len, bytes_of_hex hx)
+      | ["dflush"] -> DFlush
+      | ["dget"; i] -> DGet (n_of_string i)
+      | ["drange"; s; l; v] -> DRange (n_of_string s, n_of_string l, b01 v)
+      | ["dindex"; v; p] -> DIndex (b01 v, n_of_string p)
+      | ["dlast"; v; p] -> DLast (b01 v, n_of_string p)
+      | _ -> failwith "bwx op" in
+    let pairs l = String.concat "," (List.map (fun (i, v) -> string_of_n i ^ "=" ^ string_of_n v) l) in
+    let show = function
+      | OUnit -> "ok"
+      | OBool b -> bool01 b
+      | OOptN None -> "none"
+      | OOptN (Some n) -> string_of_n n
+      | OWords (d, len, nz) -> "dirty=" ^ bool01 d ^ " len=" ^ string_of_n len ^ " " ^ pairs nz
+      | OWrites w -> "n=" ^ string_of_int (List.length w) ^ " "
+                     ^ String.concat ";" (List.map (fun (off, nz) -> string_of_n off ^ ":" ^ pairs nz) w)
+      | OReq n -> "size,read:0:" ^ string_of_n n
+      | OPanic -> "panic" in
+    let rec upto = function
+      | [] -> []
+      | OPanic :: _ -> [OPanic]
+      | o :: r -> o :: upto r in
+    "ok " ^ String.concat " | " (List.map show (upto (bw_run (List.map parse ops))))
   | "ramx" :: ps :: ops ->
     (* the paged in-memory backend model (PagedMem.v) and the flat file model (Storage.v) on one operation list *)
     let parse o = match String.split_on_char ':' o with
